@@ -14,10 +14,19 @@ import (
 // a tracker commit, and lets queries run while a commit is half done.
 
 type parkCtl struct {
-	mu     sync.Mutex
-	armed  map[string]bool
-	parked map[string]chan struct{}
+	mu      sync.Mutex
+	armed   map[string]bool
+	skip    map[string]int  // let this many hits of the site pass first ("*.intx" sites are hit once per tracker / per block)
+	fault   map[string]bool // instead of parking, panic there: a fault in the middle of the storage transaction
+	faulted map[string]bool
+	parked  map[string]chan struct{}
 }
+
+// errInjected is the value the harness panics with inside a storage transaction. util/db recovers
+// panics raised inside a transaction closure, rolls the transaction back and returns the error.
+type errInjected struct{ site string }
+
+func (e errInjected) Error() string { return "verif: injected fault inside the transaction at " + e.site }
 
 var curPark *parkCtl
 
@@ -30,7 +39,7 @@ func init() {
 }
 
 func newParkCtl() *parkCtl {
-	return &parkCtl{armed: map[string]bool{}, parked: map[string]chan struct{}{}}
+	return &parkCtl{armed: map[string]bool{}, skip: map[string]int{}, fault: map[string]bool{}, faulted: map[string]bool{}, parked: map[string]chan struct{}{}}
 }
 
 func (p *parkCtl) hit(site string) {
@@ -39,7 +48,18 @@ func (p *parkCtl) hit(site string) {
 		p.mu.Unlock()
 		return
 	}
+	if p.skip[site] > 0 {
+		p.skip[site]--
+		p.mu.Unlock()
+		return
+	}
 	delete(p.armed, site) // one shot
+	if p.fault[site] {
+		delete(p.fault, site)
+		p.faulted[site] = true
+		p.mu.Unlock()
+		panic(errInjected{site})
+	}
 	ch := make(chan struct{})
 	p.parked[site] = ch
 	p.mu.Unlock()
@@ -52,9 +72,30 @@ func (p *parkCtl) arm(site string) {
 	p.mu.Unlock()
 }
 
+// armAt arms the (skip+1)-th hit of a site; with fault set the hit panics instead of parking.
+func (p *parkCtl) armAt(site string, skip int, fault bool) {
+	p.mu.Lock()
+	p.armed[site] = true
+	p.skip[site] = skip
+	if fault {
+		p.fault[site] = true
+	}
+	p.mu.Unlock()
+}
+
+func (p *parkCtl) didFault(site string) bool {
+	p.mu.Lock()
+	defer p.mu.Unlock()
+	f := p.faulted[site]
+	delete(p.faulted, site)
+	return f
+}
+
 func (p *parkCtl) disarmAll() {
 	p.mu.Lock()
 	p.armed = map[string]bool{}
+	p.skip = map[string]int{}
+	p.fault = map[string]bool{}
 	p.mu.Unlock()
 }
 
@@ -78,3 +119,7 @@ func (p *parkCtl) releaseAll() int {
 }
 
 var parkSites = []string{"bq.beforePut", "bq.afterPut", "commit.prepared", "commit.dbdone"}
+
+// intxSites lie INSIDE the block-write and tracker-commit transactions (C09 runs only): a crash image
+// taken there holds a half-written transaction, and a panic there is a fault in mid-transaction.
+var intxSites = []string{"bq.intx", "commit.intx"}
